@@ -638,8 +638,14 @@ pub fn run(cfg: &Cfg, rep: &mut Rep) {
     }
     // extreme years and integer-width boundary fields in otherwise well-formed texts: value or Err, never a panic
     if sh == 1 {
+        let mut xi = 0usize;
         for y in ["2147483647", "2147483646", "-2147483648", "-2147483647", "2147483648", "5879611", "5879610", "-5877711", "99999999999"] {
             for rest in ["-12-31T23:59:59", "-12-31T23:59:60", "-06-30T23:59:60", "-01-01T00:00:00", "-02-29T12:00:00 TAI", "-12-31T23:59:59.999999999 ET", "-12-31T23:59:59+23:59"] {
+                // (the slow auxiliary flavours take one of these in `stride`: a year loop of millions of iterations costs Miri minutes)
+                xi += 1;
+                if stride > 1 && xi % stride.min(60) != phase % stride.min(60) {
+                    continue;
+                }
                 let t = format!("{y}{rest}");
                 feed(rep, &t, "%Y-%m-%dT%H:%M:%S", "str/extreme-year", true);
                 feed(rep, &format!("{y}-366"), "%Y-%j", "str/extreme-year", true);
